@@ -27,11 +27,12 @@ Proof. exact trace_monotone. Qed.
 Print Assumptions C18_trace_monotone.
 
 (* Any failing step — a non-zero error code (UnsupportedSASLMechanism 33,
-   SASLAuthenticationFailed 58, any other), a malformed response, the connection closed,
+   SASLAuthenticationFailed 58, any other), a malformed response (cut off, short body, wrong
+   correlation id, or a negative length prefix on the raw exchange), the connection closed,
    a challenge the mechanism rejects, Start failing, no usable handshake version — ends in
    PFailed (dialling returned an error) with the connection closed by the client, the
    connection was never handed out, no verdict was reached, and nothing can happen on it
-   any more.  [failing] deliberately excludes RNegLen: see the two refutations below. *)
+   any more.  There is no other abnormal end: the model has no panic state. *)
 Theorem C18_failure_closes :
   forall mstate mstart mnext p a (s s' : state mstate) r,
     reachable mstate mstart mnext p a s ->
@@ -42,26 +43,6 @@ Theorem C18_failure_closes :
     /\ (forall l, step mstate mstart mnext p a s' l = None).
 Proof. exact failure_closes. Qed.
 Print Assumptions C18_failure_closes.
-
-(* REFUTED for one kind of malformed server message, the negative length prefix on the raw
-   (handshake v0) exchange.  Transport path: the client panics (no error is returned). *)
-Theorem C18_failure_closes_refuted_neglen_transport :
-  exists (a : advert) (s s' : state nat),
-    reachable nat (shape_start MPlain) (shape_next MPlain) Transport a s /\
-    step nat (shape_start MPlain) (shape_next MPlain) Transport a s (LBroker RNegLen) = Some s' /\
-    ph s' = PPanicked /\ tr s' = EPanic :: ERecv RNegLen :: tr s.
-Proof. exact neglen_transport_panics. Qed.
-Print Assumptions C18_failure_closes_refuted_neglen_transport.
-
-(* Dialer path: the negative length is taken for an empty challenge; with PLAIN the
-   exchange then counts as accepted and the connection is handed out. *)
-Theorem C18_failure_closes_refuted_neglen_dialer :
-  exists (a : advert) (s s' : state nat),
-    reachable nat (shape_start MPlain) (shape_next MPlain) Dialer a s /\
-    step nat (shape_start MPlain) (shape_next MPlain) Dialer a s (LBroker RNegLen) = Some s' /\
-    ph s' = PAccepted /\ tr s' = EVerdict :: ERecv RNegLen :: tr s.
-Proof. exact neglen_dialer_accepts. Qed.
-Print Assumptions C18_failure_closes_refuted_neglen_dialer.
 
 (* What each path really does: the handshake goes out at min(advertised max, 1) (a missing
    key counts as 0; the Dialer gives up on a negative max); SASL bytes travel raw iff that
@@ -132,6 +113,15 @@ Example ex_scram_transport_v1_right :
    ESend (MReq 36 1); ERecv (ROk [11]); ESend (MReq 36 1); ERecv (ROk [12]);
    EVerdict; EHandOut; ESend (MReq 3 1); EClose].
 Proof. vm_compute. reflexivity. Qed.
+
+(* a negative length prefix on the raw exchange (PLAIN, handshake v0) fails the dial on both
+   paths: error, connection closed, nothing written afterwards, never handed out *)
+Example ex_neglen_fails :
+  forall p,
+  trace (run_case p (adv01 (Some 0) None) MPlain CredRight (Some (2%nat, RNegLen))) =
+  [ESend (MReq 18 0); ERecv (ROk []); ESend (MReq 17 0); ERecv (ROk []);
+   ESend MRaw; ERecv RNegLen; EClose].
+Proof. intros p; destruct p; vm_compute; reflexivity. Qed.
 
 (* the oracle is not constant *)
 Example ex_corun :
